@@ -30,7 +30,8 @@ CONSTANTS NDev,          \* device instances 1..NDev (instance 1 is the one unde
           PacketSizes,   \* set of packet sizes in cells
           NScripts,      \* the first NScripts entries of AllScripts are used as short-write scripts
           MaxFaultAt,    \* faults: none, or the k-th fallible OS call for k in 1..MaxFaultAt, transient or persistent
-          FIXED
+          FIXED,
+          Export         \* TRUE: keep the history of calls (witness paths for the replay export)
 
 Devs == 1..NDev
 AllScripts == << <<>>, <<"H">>, <<"Z", "H">>, <<"Z", "Z", "Z">>, <<"S1", "Z", "S1">>, <<"H", "H">>, <<"Z", "Z", "S1", "Z">> >>
@@ -78,7 +79,7 @@ Commit(m, d, s, g, label) ==
   /\ gh' = [gh EXCEPT ![d] = g]
   /\ err' = err \cup m.err
   /\ lastAct' = [label EXCEPT !.st = s.state, !.os = m.log]
-  /\ hist' = Append(hist, lastAct')
+  /\ hist' = (IF Export THEN Append(hist, lastAct') ELSE hist)
 
 Label(op, d, arg, sw) == [op |-> op, d |-> d, arg |-> arg, sw |-> sw, st |-> 0, os |-> <<>>]
 
@@ -151,7 +152,9 @@ L_Close == \E d \in Devs : DoClose(d)
 Next == L_Open \/ L_Set \/ L_Start \/ L_Append \/ L_Stop \/ L_Close
 Spec == Init /\ [][Next]_vars
 
-View == <<dev, os, gh, used, err>>
+\* the call counter only matters until the fault has struck
+NormCall == LET f == os.fault IN IF f.at = 0 THEN 0 ELSE IF os.ncall >= f.at THEN -1 ELSE os.ncall
+View == <<dev, [os EXCEPT !.ncall = NormCall], gh, used, err>>
 
 \* ---- properties ---------------------------------------------------------------------------------------------
 NoErr == err = {}
